@@ -5,7 +5,7 @@ over EVERY keep/drop answer vector of the scripted random source (and the measur
 u == p, where either outcome is accepted).  BatchNorm1d/2d: every history over {train, eval,
 forward(A), forward(B)} x every constructor option, in lock-step with torch.nn.BatchNorm (float64):
 outputs, running mean / variance and the batch counter after every event."""
-import itertools
+import itertools, json
 import numpy as np
 from mc import harness, engine, randsrc
 
@@ -88,15 +88,17 @@ def bn_batches(rank):
 def run_bn(cfg, hist):
     sg = harness.load(); t = harness.torch()
     C = 2; rank = cfg["rank"]
+    dt = np.dtype(cfg.get("dtype", "float64")); tdt = t.float64 if dt == np.float64 else t.float32
+    rt, at = (1e-9, 1e-10) if dt == np.float64 else (2e-5, 2e-6)
     cls = sg.nn.BatchNorm2d if rank == 4 else sg.nn.BatchNorm1d
     tcls = t.nn.BatchNorm2d if rank == 4 else t.nn.BatchNorm1d
-    L = cls(C, eps=cfg["eps"], momentum=cfg["momentum"], affine=cfg["affine"], track_running_stats=cfg["track"], dtype=np.float64)
-    R = tcls(C, eps=cfg["eps"], momentum=cfg["momentum"], affine=cfg["affine"], track_running_stats=cfg["track"], dtype=t.float64)
+    L = cls(C, eps=cfg["eps"], momentum=cfg["momentum"], affine=cfg["affine"], track_running_stats=cfg["track"], dtype=dt.type)
+    R = tcls(C, eps=cfg["eps"], momentum=cfg["momentum"], affine=cfg["affine"], track_running_stats=cfg["track"], dtype=tdt)
     if cfg["affine"]:
         gam, bet = np.array([1.5, -0.5]), np.array([0.25, 2.0])
-        L.weight.data = gam.copy(); L.bias.data = bet.copy()
+        L.weight.data = gam.astype(dt); L.bias.data = bet.astype(dt)
         with t.no_grad():
-            R.weight.copy_(t.from_numpy(gam)); R.bias.copy_(t.from_numpy(bet))
+            R.weight.copy_(t.from_numpy(gam.astype(dt))); R.bias.copy_(t.from_numpy(bet.astype(dt)))
     batches = bn_batches(rank)
     viols = []
     def buffers():
@@ -110,12 +112,13 @@ def run_bn(cfg, hist):
             if e == "T": L.train(); R.train()
             elif e == "E": L.eval(); R.eval()
             else:
-                xb = batches[e]
+                xb = batches[e].astype(dt)
                 y = L(sg.Tensor(xb.copy()))
+                if y.dtype != dt: v("batchnorm:output-dtype", f"cfg {cfg} after {prefix}: {dt} input gives {y.dtype} output")
                 with t.no_grad():
                     yr = R(t.from_numpy(xb.copy())).numpy()
                 yd = np.asarray(y.data, dtype=np.float64)
-                if yd.shape != yr.shape or not np.allclose(yd, yr, rtol=1e-9, atol=1e-10):
+                if yd.shape != yr.shape or not np.allclose(yd, yr, rtol=rt, atol=at):
                     mode = "training" if L.training else "eval"
                     v(f"batchnorm:{mode}-output", f"cfg {cfg} after {prefix}: max abs diff {np.max(np.abs(yd - yr)):.3g}")
                 if not L.training:
@@ -129,9 +132,11 @@ def run_bn(cfg, hist):
             if after is None:
                 v("batchnorm:buffers-missing", "running statistics are None although tracked")
             else:
-                if not np.allclose(after[0], rm, rtol=1e-9, atol=1e-11):
+                if L.running_mean.dtype != dt or L.running_var.dtype != dt:
+                    v("batchnorm:buffer-dtype", f"cfg {cfg} after {prefix}: buffers are {L.running_mean.dtype}/{L.running_var.dtype}, layer dtype {dt}")
+                if not np.allclose(after[0], rm, rtol=rt, atol=at):
                     v("batchnorm:running_mean", f"cfg {cfg} after {prefix}: {after[0]} vs reference {rm}")
-                if not np.allclose(after[1], rv, rtol=1e-9, atol=1e-11):
+                if not np.allclose(after[1], rv, rtol=rt, atol=at):
                     v("batchnorm:running_var", f"cfg {cfg} after {prefix}: {after[1]} vs reference {rv}")
                 changed = not (np.array_equal(after[0], before[0]) and np.array_equal(after[1], before[1]))
                 if (e in "TE" or not L.training) and changed:
@@ -150,7 +155,7 @@ def judge(case):
         vs, n = run_dropout(case["p"], case["history"])
     else:
         vs, n = run_bn(case["cfg"], case["history"])
-    viol = [{"kind": k, "detail": d + f" [shortest violating prefix {pre}]"} for k, d, pre in vs]
+    viol = [{"kind": k, "detail": d + " [shortest violating prefix " + json.dumps(list(pre)) + "]"} for k, d, pre in vs]
     h = case["history"]
     nt = any(e not in ("T", "E") for e in h) and any(e in ("T", "E") for e in h)
     return {"nontrivial": nt, "outcome": "ok" if not vs else "violation", "violations": viol}
@@ -169,21 +174,24 @@ def run(tier, seed):
     for c in cfgs:
         for h in itertools.product("TEAB", repeat=bd):
             cases.append({"kind": "batchnorm", "cfg": c, "history": list(h)})
+        for h in itertools.product("TEAB", repeat=bd - 1):          # float32 layers: values, and dtype of outputs and buffers
+            cases.append({"kind": "batchnorm", "cfg": dict(c, dtype="float32"), "history": list(h)})
     r = engine.run_cases(cases, judge)
     best = {}
     for v in r["violations"]:
-        pre = v["detail"].rsplit("[shortest violating prefix ", 1)[-1].rstrip("]")
+        pre = json.loads(v["detail"].rsplit("[shortest violating prefix ", 1)[-1][:-1])
         key = (v["kind"], harness.digest(v["case"].get("cfg", v["case"].get("p"))))
         if key not in best or len(pre) < len(best[key][0]):
-            c = dict(v["case"]); c["history"] = eval(pre) if pre.startswith("[") else list(pre)
+            c = dict(v["case"]); c["history"] = pre
             best[key] = (pre, {"kind": v["kind"], "detail": v["detail"], "case": c})
-    nd = 4 * (11 ** (dd + 1) - 1) // 10; nb = len(cfgs) * (4 ** (bd + 1) - 1) // 3
+    nd = 4 * (11 ** (dd + 1) - 1) // 10; nb = len(cfgs) * ((4 ** (bd + 1) - 1) // 3 + (4 ** bd - 1) // 3)
     cov = {"states": nd + nb, "transitions": nd + nb - 4 - len(cfgs), "traces_validated_against_impl": r["evaluations"],
            "evaluations": r["evaluations"], "distinct_nontrivial": r["distinct_nontrivial"], "samples": r["samples"], "exhaustive": True,
            "rule": f"Dropout p in {{0,.3,.5,1}} x ALL {11 ** dd} histories of length {dd} over {{train, eval, forward with each of the 8 "
                    f"keep/drop answer vectors, forward at the boundary u=p}}; BatchNorm: {len(cfgs)} configurations (momentum {{.1,.5,1,None}} x "
                    f"affine x track_running_stats x input rank 2/3/4) x ALL {4 ** bd} histories of length {bd} over {{train, eval, forward(A: 2 "
-                   "samples), forward(B: 3 samples)}} in lock-step with torch.nn.BatchNorm1d/2d (float64): output, running_mean, "
+                   "samples), forward(B: 3 samples)}} in lock-step with torch.nn.BatchNorm1d/2d (float64; float32 layers one level shallower, "
+                   "incl. dtype of outputs and buffers): output, running_mean, "
                    "running_var, num_batches_tracked after every event; states = (configuration, history prefix) pairs"}
     return {"level": "model_checking", "violations": [b[1] for b in best.values()], "coverage": cov,
             "assumptions": ["NumPy's generator distribution is trusted; each element must be a function of its own draw",
